@@ -242,6 +242,33 @@ class C07(TrainCase):
             'formula, the KL bound, positivity and cross-rank agreement')
 
 
+    def gen(self, rng: random.Random, tier: str) -> dict[str, Any]:
+        if rng.random() < 0.12:
+            from simkfac import neox
+
+            plan = neox.gen_neox_plan(rng, tier, restarts=0.0)
+            if 'c' in plan['hps']['kl_clip'] and plan['hps']['kl_clip'][
+                    'c'] == 1e6:
+                plan['hps']['kl_clip'] = {'c': rng.choice([0.001, 0.05])}
+            return plan
+        return super().gen(rng, tier)
+
+    def brief(self, plan: dict[str, Any]) -> Any:
+        return _other(plan).brief(plan) if plan['kind'] != 'train' \
+            else super().brief(plan)
+
+    def legal(self, plan: dict[str, Any]) -> bool:
+        return _other(plan).legal(plan) if plan['kind'] != 'train' \
+            else super().legal(plan)
+
+    def evaluate(self, plan: dict[str, Any], tapes: Any = None) -> Outcome:
+        if plan['kind'] == 'train':
+            return super().evaluate(plan, tapes)
+        oc = _other(plan).evaluate_all(plan, tapes)
+        oc.violations = [v for v in oc.violations if 'C07' in v['props']]
+        return oc
+
+
 class C10(TrainCase):
     pid = 'C10'
     gen_kw = dict(restarts=0.0, extras=0.8, scheduler=0.1, max_ops=6)
@@ -282,10 +309,43 @@ class C03(TrainCase):
             'deadlock detection; distinct = distinct per-group collective '
             'sequence shapes')
 
+    def gen(self, rng: random.Random, tier: str) -> dict[str, Any]:
+        r = rng.random()
+        if r < 0.15:
+            from simkfac import comm
+
+            return comm.gen_comm_plan(rng, tier=tier, symmetric_only=False,
+                                      mixed_dtypes=rng.random() < 0.3)
+        if r < 0.3:
+            from simkfac import neox
+
+            return neox.gen_neox_plan(rng, tier, restarts=0.5)
+        return super().gen(rng, tier)
+
+    def brief(self, plan: dict[str, Any]) -> Any:
+        return _other(plan).brief(plan) if plan['kind'] != 'train' \
+            else super().brief(plan)
+
+    def legal(self, plan: dict[str, Any]) -> bool:
+        return _other(plan).legal(plan) if plan['kind'] != 'train' \
+            else super().legal(plan)
+
     def evaluate(self, plan: dict[str, Any], tapes: Any = None) -> Outcome:
-        oc = super().evaluate(plan, tapes)
+        if plan['kind'] == 'train':
+            oc = super().evaluate(plan, tapes)
+        else:
+            oc = _other(plan).evaluate_all(plan, tapes)
+            oc.violations = [v for v in oc.violations
+                             if 'C03' in v['props']]
         oc.nontrivial = list(oc.shapes)
         return oc
+
+
+def _other(plan: dict[str, Any]) -> Any:
+    from simkfac import cases_other
+
+    return {'comm': cases_other.C08(), 'neox': cases_other.C11()}[
+        plan['kind']]
 
 
 class C19(TrainCase):
